@@ -166,6 +166,7 @@ package frame
 //@   ensures delimiter: seqeq(content(as(result, *delimiterCodec).delimiter), content(delimiter))
 //@ func (*delimiterCodec).HandleRead
 //@   params d ctx message
+//@   locals reader readBuff tempBuff n
 //@   requires dinv(d) && ctx != nil && isReaderMsg(message)
 //@   may_panic true
 //@   loop 0 modifies elems(uint8), ghost rpos
